@@ -14,7 +14,7 @@ R-FWD          aligned_allocator forwards an alignment that is provably >= the r
 """
 import re
 
-from engine import build, fwd, sym, flow
+from engine import build, fwd, sym, flow, linear
 from engine.facts import cls_template, strip_ns, top_term, subterms, tstr
 from rules import common, c01, fwdrules
 
@@ -88,7 +88,26 @@ def check_pool_alignment(run, db):
                     chk = e
         alloc = [e for e in evs if top_term(e) is not None and top_term(e).get('k') == 'call' and top_term(e).get('short') in ('allocate_node', 'allocate_array')
                  and 'recv' in top_term(e)]
-        if chk is None:
+        # what the alignment is compared with: the alignment the pool's nodes really have
+        bound_bad = None
+        if chk is not None:
+            t = top_term(chk)
+            b = sym.strip_casts(t['args'][1]) if len(t.get('args', [])) > 1 else {}
+            roles = fwd.fn_roles(f)
+            if b.get('k') == 'lambda' and db.fns.get(b.get('fn')) is not None:
+                rets = sorted({str(sm.ret) for sm in fwd.summarize(db.fns[b['fn']], db=db, roles=roles, no_forward=True) if sm.end == 'return'})
+            else:
+                rets = [sym.canon(b, roles)]
+            if inner == 'memory_pool_collection':
+                # nodes of the pool for `size` are spaced by the bucket's node size: only the natural alignment of the size is guaranteed
+                if rets != ['alignment_for($size)']:
+                    bound_bad = 'the alignment is checked against %s, the nodes of a collection only guarantee alignment_for(size)' % rets
+            else:
+                if not (len(rets) == 1 and re.search(r'max_alignment\(\$state\)$', rets[0])):
+                    bound_bad = 'the alignment is checked against %s, not against the pool\'s max_alignment' % rets
+        if bound_bad:
+            run.violation('R-ALIGN.pool', inst, f.loc, bound_bad, site={'function': 'allocator_traits<%s>::%s' % (inner, f.short), 'role': 'alignment bound'})
+        elif chk is None:
             run.violation('R-ALIGN.pool', inst, f.loc, 'no bad_alignment check of the requested alignment', site={'function': 'allocator_traits<%s>::%s' % (inner, f.short), 'role': 'alignment check'})
         elif not alloc or not f.ev_dominates(chk, alloc[0]):
             run.violation('R-ALIGN.pool', inst, f.loc, 'the alignment check does not precede the allocation', site={'function': 'allocator_traits<%s>::%s' % (inner, f.short), 'role': 'alignment check'})
@@ -195,6 +214,78 @@ def check_insert_alignment(run, db):
     return n
 
 
+def _norm_bucket(c):
+    c = re.sub(r'g:[\w:<>, ]*?::min_size_index', 'MIN', c)
+    c = re.sub(r'detail::\w+_access_policy::', 'P::', c)
+    return c
+
+
+def check_buckets(run, db, rule='R-BUCKET'):
+    """a request of size s is served by the free list created for size_from_index(index_from_size(s)): the list array creates list i
+    with size_from_index(i + min), looks a size up at index_from_size(size) - min (clamped below at min), has
+    index_from_size(max) - min + 1 lists and reports size_from_index(min + n - 1) as maximum; the log2 policy rounds the index UP
+    (ilog2_ceil) and maps index i to 1 << i.  That ilog2_ceil is a ceiling is C19 (not decided)."""
+    n = 0
+    by_cls = {}
+    for f in db.find(cls_t='detail::free_list_array'):
+        by_cls.setdefault(f.cls, []).append(f)
+    for cls, fns in sorted(by_cls.items()):
+        probs = []
+        anchor = fns[0]
+        for f in fns:
+            if f.kind == 'ctor' and len(f.params) == 3:
+                anchor = f
+                S = [s for s in fwd.summarize(f, db=db, roles={0: 'stack', 1: 'end', 2: 'max_node_size'}, no_forward=True) if s.end == 'return']
+                ne = {_norm_bucket(w[1]) for s in S for w in s.writes if w[0] == 'this.no_elements_'}
+                if not ne <= {'((P::index_from_size($max_node_size) - MIN) + 1)', '(1 + (P::index_from_size($max_node_size) - MIN))', '((1 + P::index_from_size($max_node_size)) - MIN)'} or not ne:
+                    probs.append('the number of lists is %s, not index_from_size(max_node_size) - min + 1' % sorted(ne))
+                cons = {_norm_bucket(c[0]) for s in S for c in s.calls if c[1].get('k') == 'construct' and 'free_memory_list' in str(c[1].get('type', ''))}
+                if cons and not any(re.search(r'\{P::size_from_index\(\((0 \+ MIN|MIN \+ 0|MIN)\)\)\}$', c) for c in cons):
+                    probs.append('list i is created with %s, not size_from_index(i + min)' % sorted(cons)[0][-80:])
+            elif f.short == 'get':
+                for s in fwd.summarize(f, db=db, roles={0: 'node_size'}, no_forward=True):
+                    if s.end != 'return' or not s.ret:
+                        continue
+                    clamp = any(_norm_bucket(c) == '(P::index_from_size($node_size) < MIN)' and tk for c, tk in s.conds)
+                    t = sym.strip_casts(s.ret_term)
+                    idx = None
+                    if isinstance(t, dict) and t.get('k') == 'bin' and t.get('op') == '[]' and sym.canon(t['l'], {0: 'node_size'}) == 'this.array_':
+                        idx = {_norm_bucket(a): v for a, v in linear.lin(t['r'], {0: 'node_size'}).items()}
+                    elif isinstance(t, dict) and t.get('k') == 'un' and t.get('op') == '*':
+                        lv = {_norm_bucket(a): v for a, v in linear.lin(t['e'], {0: 'node_size'}).items()}
+                        if lv.get('this.array_') == 1:
+                            idx = {a: v for a, v in lv.items() if a != 'this.array_'}
+                    want = {} if clamp else {'P::index_from_size($node_size)': 1, 'MIN': -1}
+                    if idx != want:
+                        probs.append('get(size) returns %s, expected the list at index %s' % (_norm_bucket(s.ret)[:80], 'min - min' if clamp else 'index_from_size(size) - min'))
+            elif f.short == 'max_node_size':
+                for s in fwd.summarize(f, db=db, roles={}, no_forward=True):
+                    if s.end == 'return' and s.ret:
+                        r = _norm_bucket(s.ret)
+                        if r not in ('P::size_from_index(((MIN + this.no_elements_) - 1))', 'P::size_from_index(((this.no_elements_ + MIN) - 1))', 'P::size_from_index((MIN + (this.no_elements_ - 1)))'):
+                            probs.append('max_node_size() is %s, not size_from_index(min + number of lists - 1)' % r[:80])
+        n += 1
+        inst = '%s [%s]' % (strip_ns(cls), db.config)
+        site = {'function': 'detail::free_list_array', 'role': 'size -> list mapping consistent'}
+        if probs:
+            run.violation(rule, inst, anchor.loc, '; '.join(sorted(set(probs))[:2]), site=site)
+        else:
+            run.ok(rule, inst, anchor.loc, 'lists created, looked up and counted with the same index arithmetic')
+    want = {('detail::log2_access_policy', 'index_from_size'): ('ilog2_ceil($size)',), ('detail::log2_access_policy', 'size_from_index'): ('(1 << $index)',),
+            ('detail::identity_access_policy', 'index_from_size'): ('$size',), ('detail::identity_access_policy', 'size_from_index'): ('$index',)}
+    for (ct, short), acc in sorted(want.items()):
+        for f in db.find(cls_t=ct, short=short):
+            n += 1
+            rets = sorted({str(s.ret) for s in fwd.summarize(f, db=db, roles={0: short.split('_')[-1]}, no_forward=True) if s.end == 'return'})
+            inst = '%s [%s]' % (f.display, db.config)
+            if len(rets) == 1 and rets[0] in acc:
+                run.ok(rule, inst, f.loc, rets[0])
+            else:
+                run.violation(rule, inst, f.loc, '%s returns %s, expected %s: a size could be mapped to a list with smaller nodes' % (short, rets, acc[0]),
+                              site={'function': '%s::%s' % (ct, short), 'role': 'index rounds up / size is the bucket maximum'})
+    return n
+
+
 def check_run(run, db):
     n = 0
     for f in db.fns.values():
@@ -285,6 +376,7 @@ def run(run):
     run.rule('R-ALIGN.term', 'returned address = X + align_offset(X, alignment) for the bumped cursor', floor=6)
     run.rule('R-ALIGN.pool', 'pools reject larger alignments; collection uses max_alignment', floor=10)
     run.rule('R-ALIGN.insert', 'memory the pools give to a free list is aligned for max_alignment', floor=8)
+    run.rule('R-BUCKET', 'a node size is mapped to a free list whose nodes are at least that large (index arithmetic of the list array, rounding of the log2 policy)', floor=8)
     run.rule('R-RUN', 'array search returns only runs covering the requested bytes', floor=2)
     run.rule('R-FWD', 'aligned_allocator never lowers the alignment', floor=8)
     run.rule('R-BOUND', 'size bytes behind the returned address lie inside the region (shared with C01)', floor=10)
@@ -298,6 +390,8 @@ def run(run):
             run.broke('pool traits not found [%s]' % cfg)
         if check_insert_alignment(run, db) < 4:
             run.broke('free list insertions of the pools not found [%s]' % cfg)
+        if check_buckets(run, db) < 6:
+            run.broke('free_list_array / access policies not found [%s]' % cfg)
         if check_run(run, db) < 2:
             run.broke('array search functions not found [%s]' % cfg)
         if c01.check_bound(run, db) < 8:
